@@ -1069,8 +1069,11 @@ def gen_calibrate_spec(ctx, mspec, force=None):
             "max_time": 0.0 if (r.random() < 0.08 or force == "maxtime") else 30, "seed": r.randint(0, 10**6), "stepsize": r.choice([0.1, 0.3])}
 
 
-def gen_reconcile_spec(ctx, mspec):
+def gen_reconcile_spec(ctx, mspec, force=None):
     r = ctx.rng
+    if force == "capacity":
+        return {"kind": "reconcile", "model": mspec, "year": 2018.0, "unit_cost_bounds": 0.5, "baseline_bounds": 0.0, "outcome_bounds": 0.0, "capacity_bounds": r.choice([0.02, 0.05]),
+                "eval_range": None, "maxiters": r.choice([5, 10]), "seed": r.randint(0, 10**6)}
     return {"kind": "reconcile", "model": mspec, "year": 2018.0, "unit_cost_bounds": r.choice([0.1, 0.2, 0.5]), "baseline_bounds": r.choice([0.0, 0.2]),
             "outcome_bounds": r.choice([0.0, 0.3]), "capacity_bounds": [0.0, 0.02, 0.3][(r.randint(0, 10**6)) % 3], "eval_range": None if r.random() < 0.6 else [2018.0, 2020.0],
             "maxiters": r.choice([2, 5, 10, 20]), "seed": r.randint(0, 10**6)}
@@ -1503,6 +1506,10 @@ def problem_specs(ctx):
         specs.append(("calibrate", ms, False, None))
         if ms["name"] in ("tb_simple", "udt", "hypertension_dyn") and (not ctx.quick or i == 0):
             specs.append(("reconcile", ms, False, None))
+    # directed: a program whose capacity constraint binds, reconciled with a capacity bound that differs from the unit-cost bound
+    capped = [ms for ms in gens if any(d.get("capacity") is not None for d in ms.get("progs", {}).values())]
+    for ms in capped[: (1 if ctx.quick else 4)]:
+        specs.append(("reconcile", ms, False, "capacity"))
     return specs
 
 
@@ -1516,7 +1523,7 @@ def run_problems(ctx, verdicts):
             elif kind == "calibrate":
                 spec = gen_calibrate_spec(ctx, mspec, force=force)
             else:
-                spec = gen_reconcile_spec(ctx, mspec)
+                spec = gen_reconcile_spec(ctx, mspec, force=force)
             if spec is None:
                 continue
             if mspec.get("name") == "tb":
